@@ -170,6 +170,10 @@ func C14(c *fw.Ctx) {
 	}
 	// calls, literals, index, stores: operands over a 5-value pool
 	small := []pval{vals[6], vals[2], vals[4], vals[0], vals[11]}
+	if !c.Quick() {
+		small = vals // every probe value in every position
+	}
+	c.Bound("operand_pool_for_calls_literals_stores", len(small))
 	for _, a := range small {
 		for _, b := range small {
 			if !c.Mine() {
@@ -330,8 +334,41 @@ func C14(c *fw.Ctx) {
 			}
 		}
 	}
+	if !c.Quick() {
+		// every two-hole context nested in either hole of every two-hole context, the three leaves over
+		// every leaf form
+		lf := []int{0, 1, 2, 3, 4, 5, 6, 7}
+		c.Bound("nested_context_pairs", len(thNames)*len(thNames)*2)
+		for _, outer := range thNames {
+			for _, in := range thNames {
+				for pos := 0; pos < 2; pos++ {
+					for _, i1 := range lf {
+						for _, i2 := range lf {
+							for _, i3 := range lf {
+								if !c.Mine() {
+									continue
+								}
+								var e *model.N
+								if pos == 0 {
+									e = twoHole[outer](model.Grp(twoHole[in](leafForms[i1].mk(), leafForms[i2].mk())), leafForms[i3].mk())
+								} else {
+									e = twoHole[outer](leafForms[i1].mk(), model.Grp(twoHole[in](leafForms[i2].mk(), leafForms[i3].mk())))
+								}
+								prog := append(bumpPre(), model.Print(e), model.Print(model.Id("w")), model.Print(model.Id("wa")), model.Print(model.Id("arr")))
+								judgeAllSchedules(c, prog, "nested-contexts|"+outer+"|"+in)
+							}
+						}
+					}
+				}
+			}
+		}
+	}
 	// depth 2: (□ op1 □) op2 (□ op3 □), probe values 0/1
 	inner := []string{"+", model.KwOr, model.KwAnd, "==", "<", "*"}
+	if !c.Quick() {
+		inner = append(append([]string{}, allOps...), logOps...)
+	}
+	c.Bound("depth2_inner_operators", len(inner))
 	bits := []float64{0, 1}
 	for _, op2 := range append(allOps, logOps...) {
 		for _, op1 := range inner {
